@@ -231,8 +231,15 @@ def gen_case(rng, nops, pid):
         op["alias"] = alias_info(st, names)
         ops.append(op)
 
-    def new(name, t, buf):
+    def null_refs(t, v):
+        k = t["k"]
+        if k in ("ref", "union"): return None
+        if k == "struct": return {"f": [null_refs(ft, fv) for (_, ft), fv in zip(t["fields"], v["f"])]}
+        if k == "array": return {"shape": list(v["shape"]), "items": [null_refs(t["item"], x) for x in v["items"]]}
+        return v
+    def new(name, t, buf, nulls=False):
         v = G.gen_value(rng, t)
+        if nulls: v = null_refs(t, v)          # every reference of this object denotes nothing
         names[name] = st.intern(t, v, buf)
         push({"op": "new", "name": name, "type": t, "value": v, "buf": buf})
     holder_t = rng.choice([W["N"], W["N"], W["D"], W["NA"]])
@@ -246,7 +253,7 @@ def gen_case(rng, nops, pid):
     if rng.random() < 0.5: new("y1", W["L1"], rng.choice(["B1", "B2"]))
     if rng.random() < 0.3: new("xa", W["A"], "B0")
     if holder_t is W["NA"] and rng.random() < 0.8:      # another object of the item type, to be assigned as a whole
-        new("n1", W["N"], rng.choice(["B0", "B0", "B1"]))
+        new("n1", W["N"], rng.choice(["B0", "B0", "B1"]), nulls=rng.random() < 0.5)
     for k in range(nops):
         r = rng.random()
         if r < (0.35 if pid == "C09" else 0.10):
